@@ -282,21 +282,29 @@ def _parse_ast_nodes(text:FileText, flags:CompilerFlags, auto_flags:bool, mode:s
     """
     assert isinstance(text, FileText)
     filename = str(text.filename) if text.filename else "<unknown>"
-    source = text.joined
-    source = dedent(source)
-    if not source.endswith("\n"):
-        # Ensure that the last line ends with a newline (``ast`` barfs
-        # otherwise).
-        source += "\n"
     exp = None
-    for flags in _flags_to_try(source, flags, auto_flags, mode):
+    # Parse the text as it is.  Only when that fails, try it dedented (e.g.
+    # an indented snippet): dedenting also rewrites whitespace-only lines
+    # inside string literals and shifts columns, so it must not be applied to
+    # text that compiles as it stands.
+    sources = [text.joined]
+    if dedent(text.joined) != text.joined:
+        sources.append(dedent(text.joined))
+    attempts = [(source, try_flags)
+                for source in sources
+                for try_flags in _flags_to_try(source, flags, auto_flags, mode)]
+    for source, flags in attempts:
+        if not source.endswith("\n"):
+            # Ensure that the last line ends with a newline (``ast`` barfs
+            # otherwise).
+            source += "\n"
         cflags = ast.PyCF_ONLY_AST | int(flags)
         try:
             result = compile(
                 source, filename, mode, flags=cflags, dont_inherit=True)
         except SyntaxError as e:
-            exp = e
-            pass
+            if exp is None:
+                exp = e
         else:
             # Attach flags to the result.
             result.input_flags = flags
